@@ -23,6 +23,61 @@ static inline uint64_t atomic_u64_fetch_sub(atomic_u64 *a, uint64_t v, int mo) {
 static inline uint64_t atomic_u64_fetch_xor(atomic_u64 *a, uint64_t v, int mo) { (void)mo; uint64_t o = a->v; a->v = o ^ v; return o; }
 static inline void atomic_thread_fence_stub(int mo) { (void)mo; }
 
+#ifdef VERIF_NATIVE_EPOCH
+/* ---- epoch component: executable vector / heartbeat model for the fidelity check ---- */
+typedef struct { size_t *ptr; } shared_ptr_size;
+typedef struct { uint64_t gen; _Bool bound; } weak_ptr_size;
+typedef int std_greater_size;
+typedef struct { size_t size, cap; size_t *data; } vec_size;
+typedef struct { vec_size *vec; size_t pos; } vec_size_iter;
+typedef struct { vec_size a[256]; } arr_vec_size_256;
+extern _Bool sim_gen_alive[];   /* heartbeat generations: alive while their (simulated) thread runs */
+static inline shared_ptr_size shared_ptr_size_default(void) { shared_ptr_size p; p.ptr = 0; return p; }
+static inline weak_ptr_size weak_ptr_size_default(void) { weak_ptr_size w; w.gen = 0; w.bound = 0; return w; }
+static inline weak_ptr_size *weak_ptr_size_assign(weak_ptr_size *dst, weak_ptr_size src) { *dst = src; return dst; }
+static inline void weak_ptr_size_dtor(weak_ptr_size *w) { (void)w; }
+static inline _Bool weak_ptr_size_expired(const weak_ptr_size *w) { return !w->bound || !sim_gen_alive[w->gen]; }
+static inline void vec_size_reserve(vec_size *v, size_t n) { if(n > v->cap) { v->data = realloc(v->data, n * sizeof(size_t)); v->cap = n; } }
+static inline void vec_size_emplace_back(vec_size *v, size_t x) { if(v->size == v->cap) vec_size_reserve(v, v->cap ? 2 * v->cap : 4); v->data[v->size++] = x; }
+static inline size_t *vec_size_back(vec_size *v) { if(v->size == 0) { printf("EMPTY_BACK\n"); exit(3); } return &v->data[v->size - 1]; }
+static inline size_t *vec_size_front(vec_size *v) { if(v->size == 0) { printf("EMPTY_FRONT\n"); exit(3); } return &v->data[0]; }
+static inline size_t *vec_size_at(vec_size *v, size_t i) { if(i >= v->size) { printf("OUT_OF_RANGE\n"); exit(3); } return &v->data[i]; }
+static inline size_t vec_size_size(const vec_size *v) { return v->size; }
+static inline _Bool vec_size_empty(const vec_size *v) { return v->size == 0; }
+static inline void vec_size_clear(vec_size *v) { v->size = 0; }
+static inline vec_size_iter vec_size_begin(vec_size *v) { vec_size_iter i; i.vec = v; i.pos = 0; return i; }
+static inline vec_size_iter vec_size_end(vec_size *v) { vec_size_iter i; i.vec = v; i.pos = v->size; return i; }
+static inline void vec_size_sort_desc(vec_size_iter b, vec_size_iter e)
+{
+  for(size_t i = b.pos + 1; i < e.pos; i++)
+  {
+    size_t x = b.vec->data[i], j = i;
+    while(j > b.pos && b.vec->data[j - 1] < x) { b.vec->data[j] = b.vec->data[j - 1]; j--; }
+    b.vec->data[j] = x;
+  }
+}
+static inline vec_size_iter vec_size_unique(vec_size_iter b, vec_size_iter e)
+{
+  vec_size_iter r = b;
+  if(b.pos == e.pos) return r;
+  size_t w = b.pos;
+  for(size_t i = b.pos + 1; i < e.pos; i++)
+    if(b.vec->data[i] != b.vec->data[w]) b.vec->data[++w] = b.vec->data[i];
+  r.pos = w + 1;
+  return r;
+}
+static inline void vec_size_erase(vec_size *v, vec_size_iter from, vec_size_iter to)
+{
+  size_t n = to.pos - from.pos;
+  for(size_t i = to.pos; i < v->size; i++) v->data[i - n] = v->data[i];
+  v->size -= n;
+}
+static inline size_t *vec_size_iter_deref(vec_size_iter *it) { if(it->pos >= it->vec->size) { printf("BAD_ITER\n"); exit(3); } return &it->vec->data[it->pos]; }
+static inline vec_size_iter *vec_size_iter_inc(vec_size_iter *it) { it->pos = it->pos + 1; return it; }
+static inline _Bool vec_size_iter_eq(const vec_size_iter *a, const vec_size_iter *b) { return a->vec == b->vec && a->pos == b->pos; }
+static inline vec_size *arr_vec_size_256_at(arr_vec_size_256 *a, size_t i) { if(i >= 256) { printf("OUT_OF_RANGE\n"); exit(3); } return &a->a[i]; }
+static inline arr_vec_size_256 arr_vec_size_256_default(void) { arr_vec_size_256 a; memset(&a, 0, sizeof a); return a; }
+#else
 /* ---- zipf ---- */
 typedef struct { double *data; size_t size; size_t cap; _Bool wf; } vec_double;
 typedef struct { double d[100]; } arr_double_100;
@@ -49,5 +104,6 @@ static inline double uniform_real_dist_call(uniform_real_dist *d, rand_engine *g
 }
 static inline double verif_pow(double b, double e) { return pow(b, e); }
 static inline double verif_log(double x) { return log(x); }
+#endif /* VERIF_NATIVE_EPOCH */
 extern _Bool verif_thrown;
 #endif
